@@ -30,13 +30,16 @@
 (* Actions (one per observable step):                                      *)
 (*   SelectMixins      generation: which mixin methods each client of each *)
 (*                     service exposes                                     *)
-(*   CallMixin(s,m,k)  a caller invokes mixin method m on client kind k of *)
-(*                     service s                                           *)
+(*   CallMixin(s,m,k,i) a caller invokes mixin method m on client kind k   *)
+(*                     of service s, on client INSTANCE i (two instances   *)
+(*                     A, B of every client live in one process, each with *)
+(*                     its own transport to its own server)                *)
 (*                     (grpc = sync client over gRPC, grpc_asyncio =       *)
 (*                     asyncio client over gRPC, rest = sync client over   *)
 (*                     REST); `call` is what the server sees / the caller  *)
 (*                     gets back                                           *)
-(*   CallOwn(s, m, k)  a caller invokes an IAM RPC the API declares itself *)
+(*   CallOwn(s,m,k,i)  a caller invokes an IAM RPC the API declares itself *)
+(*   Return            the call is over                                    *)
 (*                                                                         *)
 (* Written from the property text; the invariants below restate it clause  *)
 (* by clause.  Named restrictions of the input space: own # {} /\ legacy   *)
@@ -131,7 +134,7 @@ ServicePath(sv) == "/acme.mx.v1." \o sv \o "/"
 Kinds == {"grpc", "grpc_asyncio", "rest"}
 ClientKinds == {"sync", "asyncio"}
 ClientOf(k) == IF k = "grpc_asyncio" THEN "asyncio" ELSE "sync"
-NoCall == [svc |-> "-", m |-> "-", kind |-> "-", via |-> "-", path |-> "-", reqtype |-> "-", resptype |-> "-",
+NoCall == [inst |-> "-", server |-> "-", svc |-> "-", m |-> "-", kind |-> "-", via |-> "-", path |-> "-", reqtype |-> "-", resptype |-> "-",
            hkey |-> "-", hval |-> "-", verb |-> "-", body |-> "-", extra |-> "-"]
 NoneExposed == [sv \in Svcs |-> [c \in ClientKinds |-> {}]]
 
@@ -257,8 +260,14 @@ KindUsable(k) == /\ ClientOf(k) \in clients
 \* REST calls of the legacy IAM methods are outside the property (no http rule exists for them)
 OutOfScope(m, k) == k = "rest" /\ legacy /\ m \in IamRPCs
 CanonicalPath(m) == "/" \o ApiOf(m) \o "/" \o m
-GrpcCall(sv, m, k) ==
-  [svc |-> sv, m |-> m, kind |-> k, via |-> "mixin",
+\* two client instances per (service, client kind, transport), each on its own server; the model-checking scopes explore the
+\* second instance for the legacy option and the all-on rule sets (bound on the state space, not on the replayed cases)
+InstSeq == <<"A", "B">>
+Insts == IF Scope \in {"small", "full"} /\ ~legacy /\ rules \notin {AllRules(1), AllRules(2)} THEN {"A"} ELSE {"A", "B"}
+GrpcCall(sv, m, k, i) ==
+  [inst |-> i,
+   server |-> IF Mutant = "shared_wrapped_methods" /\ legacy /\ m \in IamRPCs /\ k = "grpc" THEN "A" ELSE i,
+   svc |-> sv, m |-> m, kind |-> k, via |-> "mixin",
    path |-> IF Mutant = "wrong_path" /\ m = "CancelOperation" THEN "/google.longrunning.Operations/CancelOperations"
             ELSE CanonicalPath(m),
    reqtype |-> ReqType(m),
@@ -288,28 +297,32 @@ Chosen(m) == LET bs == Bindings(m) IN
              IF Mutant = "sorted_bindings"
              THEN bs[CHOOSE i \in 1..Len(bs) : \A j \in 1..Len(bs) : Rank(bs[i].pre) <= Rank(bs[j].pre)]
              ELSE bs[1]
-RestCall(sv, m) ==
+RestCall(sv, m, i) ==
   LET r == Chosen(m) IN
-  [svc |-> sv, m |-> m, kind |-> "rest", via |-> "mixin", path |-> BExpanded(m, r), reqtype |-> "-", resptype |-> "-",
+  [inst |-> i, server |-> i, svc |-> sv, m |-> m, kind |-> "rest", via |-> "mixin", path |-> BExpanded(m, r), reqtype |-> "-", resptype |-> "-",
    hkey |-> "-", hval |-> "-",
    verb |-> IF Mutant = "rest_wrong_verb" /\ r.verb = "put" THEN "post" ELSE r.verb,
    body |-> IF r.body = "*" /\ Mutant # "rest_drops_body" THEN "json" ELSE "none",
    extra |-> IF ~HasExtra(m) THEN "none" ELSE IF r.body = "*" /\ Mutant # "rest_drops_body" THEN "body" ELSE "query"]
-CallRec(sv, m, k) == IF k = "rest" THEN RestCall(sv, m) ELSE GrpcCall(sv, m, k)
+CallRec(sv, m, k, i) == IF k = "rest" THEN RestCall(sv, m, i) ELSE GrpcCall(sv, m, k, i)
 \* the API's own RPC is reached (the property says nothing else about it; its REST form is C04's business)
-OwnRec(sv, m, k) == [NoCall EXCEPT !.svc = sv, !.m = m, !.kind = k, !.via = "own",
+OwnRec(sv, m, k, i) == [NoCall EXCEPT !.inst = i, !.server = i, !.svc = sv, !.m = m, !.kind = k, !.via = "own",
                                    !.path = IF k = "rest" THEN "-" ELSE ServicePath(sv) \o m]
 
 CanCallMixin(sv, m, k) == sv \in Services /\ KindUsable(k) /\ m \in exposed[sv][ClientOf(k)] /\ ~OutOfScope(m, k)
 CanCallOwn(sv, m, k) == sv \in Services /\ KindUsable(k) /\ m \in OwnOn(sv) /\ m \notin exposed[sv][ClientOf(k)]
-CallMixin(sv, m, k) == /\ phase = "selected" /\ CanCallMixin(sv, m, k)
-                       /\ call' = CallRec(sv, m, k)
+CallMixin(sv, m, k, i) == /\ phase = "selected" /\ CanCallMixin(sv, m, k) /\ i \in Insts
+                          /\ call' = CallRec(sv, m, k, i)
                        /\ UNCHANGED <<cfgvars, phase, exposed>>
-CallOwn(sv, m, k) == /\ phase = "selected" /\ CanCallOwn(sv, m, k)
-                     /\ call' = OwnRec(sv, m, k)
+CallOwn(sv, m, k, i) == /\ phase = "selected" /\ CanCallOwn(sv, m, k) /\ i \in Insts
+                        /\ call' = OwnRec(sv, m, k, i)
                      /\ UNCHANGED <<cfgvars, phase, exposed>>
 
-Next == SelectMixins \/ \E sv \in Svcs, m \in RPCs, k \in Kinds : CallMixin(sv, m, k) \/ CallOwn(sv, m, k)
+\* the caller has its answer; the next call starts from there (keeps the state graph linear in the number of calls; a trace
+\* step "call after call" is Return followed by the call)
+Return == /\ phase = "selected" /\ call # NoCall /\ call' = NoCall /\ UNCHANGED <<cfgvars, phase, exposed>>
+Next == \/ SelectMixins \/ Return
+        \/ call = NoCall /\ \E sv \in Svcs, m \in RPCs, k \in Kinds, i \in {"A", "B"} : CallMixin(sv, m, k, i) \/ CallOwn(sv, m, k, i)
 Spec == Init /\ [][Next]_vars /\ WF_vars(SelectMixins)
 
 -----------------------------------------------------------------------------
@@ -366,6 +379,8 @@ Inv_Rest == (call.via = "mixin" /\ call.kind = "rest") =>
               /\ (HasExtra(call.m) => call.extra = (IF r.body = "*" THEN "body" ELSE "query"))
 \* only exposed methods are callable as mixins, the API's own RPCs keep their own path
 Inv_CallsExposed == call.via = "mixin" => call.svc \in Services /\ call.m \in exposed[call.svc][ClientOf(call.kind)]
+\* a call made on a client instance travels over THAT instance's transport: it reaches the server of the instance it was made on
+Inv_OwnTransport == call.via \in {"mixin", "own"} => call.inst \in {"A", "B"} /\ call.server = call.inst
 Inv_OwnWins == call.via = "own" => call.m \in own /\ call.svc = "Carrier" /\
                  (call.kind # "rest" => call.path = "/acme.mx.v1.Carrier/" \o call.m)
 Live == <>Sel
@@ -377,13 +392,16 @@ SvcSeq == <<"Carrier", "Other">>
 TriplesSeq(P(_, _, _)) ==      \* all <<sv, m, k>> with P(sv, m, k), in the fixed order SvcSeq x RPCSeq x KindSeq
   LET all == [i \in 1..60 |-> <<SvcSeq[((i - 1) \div 30) + 1], RPCSeq[(((i - 1) % 30) \div 3) + 1], KindSeq[((i - 1) % 3) + 1]>>]
   IN SelectSeq(all, LAMBDA p : P(p[1], p[2], p[3]))
+\* what a call of m on instance i of client kind k of service sv looks like, NoCall when no such call can be made
+CallOrNone(sv, m, k, i) == IF CanCallMixin(sv, m, k) THEN CallRec(sv, m, k, i)
+                           ELSE IF CanCallOwn(sv, m, k) THEN OwnRec(sv, m, k, i) ELSE NoCall
+RuleJson(e) == [selector |-> ApiOf(e.m) \o "." \o e.m, verb |-> e.b.verb, uri |-> BUri(e.m, e.b), body |-> e.b.body,
+                additional |-> [j \in 1..Len(e.add) |-> [verb |-> e.add[j].verb, uri |-> BUri(e.m, e.add[j]), body |-> e.add[j].body]]]
+MapSeq(F(_), sq) == [i \in 1..Len(sq) |-> F(sq[i])]
 Case ==
   [ apis |-> SelectSeq(ApiSeq, LAMBDA a : a \in apis),
     rulecode |-> rules,
-    rules |-> [i \in 1..Len(YamlRules) |->
-                 LET e == YamlRules[i] IN
-                 [selector |-> ApiOf(e.m) \o "." \o e.m, verb |-> e.b.verb, uri |-> BUri(e.m, e.b), body |-> e.b.body,
-                  additional |-> [j \in 1..Len(e.add) |-> [verb |-> e.add[j].verb, uri |-> BUri(e.m, e.add[j]), body |-> e.add[j].body]]]],
+    rules |-> MapSeq(RuleJson, YamlRules),
     dup |-> dup,
     addl |-> addl, own |-> RpcSeqOf(own), layout |-> layout, services |-> ServiceSeq, legacy |-> legacy, tmpl |-> tmpl,
     transports |-> SelectSeq(<<"grpc", "rest">>, LAMBDA t : t \in transports),
@@ -391,11 +409,13 @@ Case ==
     table |-> [i \in 1..10 |-> [rpc |-> RPCSeq[i], snake |-> Snake(RPCSeq[i]), reqtype |-> ReqType(RPCSeq[i]),
                                 resptype |-> WireRespType(RPCSeq[i]), field |-> Field(RPCSeq[i]), value |-> Value(RPCSeq[i])]],
     expect |-> [ present |-> [sv \in Svcs |-> [sync |-> RpcSeqOf(Present(sv, "sync")), asyncio |-> RpcSeqOf(Present(sv, "asyncio"))]],
-                 calls |-> LET ps == TriplesSeq(LAMBDA sv, m, k : CanCallMixin(sv, m, k) \/ CanCallOwn(sv, m, k)) IN
-                           [i \in 1..Len(ps) |-> IF CanCallMixin(ps[i][1], ps[i][2], ps[i][3]) THEN CallRec(ps[i][1], ps[i][2], ps[i][3])
-                                                 ELSE OwnRec(ps[i][1], ps[i][2], ps[i][3])],
+                 calls |-> SelectSeq([q \in 1..120 |-> CallOrNone(SvcSeq[((q - 1) \div 60) + 1], RPCSeq[(((q - 1) % 60) \div 6) + 1],
+                                                                    KindSeq[(((q - 1) % 6) \div 2) + 1], InstSeq[((q - 1) % 2) + 1])],
+                                     LAMBDA c : c.via # "-"),
                  outofscope |-> LET ps == TriplesSeq(LAMBDA sv, m, k : sv \in Services /\ OutOfScope(m, k)) IN
                                 [i \in 1..Len(ps) |-> [svc |-> ps[i][1], m |-> ps[i][2], kind |-> ps[i][3]]] ] ]
 \* emitted once per configuration and set of client classes (the harness picks the one the emitted library has)
+\* CONSTRAINT of the emission configurations: cases are printed on the `selected` states, calls need not be explored there
+EmitOnly == call = NoCall
 Emit == (Sel /\ call = NoCall) => PrintT(<<"CASE", ToJson(Case)>>)
 =============================================================================
